@@ -191,7 +191,9 @@ Arguments delete_if_pinned {V}. Arguments delete_if_fixed {V}. Arguments delete_
 (* Engine state                                                                                              *)
 (* ------------------------------------------------------------------------------------------------------- *)
 
-(* pendInt.  mustBeFresh is stored by the code but never read; it is not modelled. *)
+(* pendInt.  mustBeFresh is stored by the code but never read; it is not modelled.
+   pdig = Some k: the Interest's name ends with an implicit digest component (k = that component, interned): "a digest is
+   requested" is the PRESENCE of the component (pendInt.hasImpSha256), whatever its value — zero-length, nil, 31 or 33 bytes. *)
 Record pend := mkPend { pid : nat; pdeadline : time; pcbp : bool; pdig : option key; ptimer : nat }.
 
 Inductive tstate := TSched | TFired | TCancelled | TDone.
